@@ -1423,3 +1423,56 @@ def mon_rejected_writes_nothing(case, intents, obs):
             if n:
                 out.append(("rejected-request-wrote", f"event {i} ({it.get('op')}/{it.get('expect')}): a rejected request sent {n} commands to the datapath", i))
     return out
+
+
+def report_scenarios(rng):
+    """C13 at the agent level (monitor only): downlink data reports for a session whose downlink FAR buffers and notifies,
+    before and after a Session Modification that changes the control plane's F-SEID: every Session Report Request is
+    addressed with the control plane's CURRENT SEID for that session.
+    -> (name, case, intents, number of probe events at the end)"""
+    out = []
+    for variant in ("cp-fseid-changed", "cp-fseid-changed-twice", "two-sessions"):
+        g = Gen(rng)
+        g.setup(0)
+        ls = [g.establish(0, npairs=1, nqers=0, chv4=False, choose=False, with_sdf=False)]
+        if variant == "two-sessions":
+            ls.append(g.establish(0, npairs=1, nqers=0, chv4=False, choose=False, with_sdf=False))
+        for l in ls:
+            g.modify(l, kind="upd_far_buffer")
+
+        def report(l):
+            g.events.append({"k": "report", "conn": 0, "fseid": l})
+            g.intents.append({"op": "report", "conn": 0, "lseid": l, "want_seid": g.sessions[l]["cp_seid"], "want_pdr": 2})
+        for l in ls:
+            report(l)
+        for _ in range(2 if variant == "cp-fseid-changed-twice" else 1):
+            for l in ls:
+                g.modify(l, kind="cp_fseid")
+                report(l)
+        for l in ls:
+            g.delete(l)
+        g.heartbeat(0)
+        out.append((f"report-after-{variant}", {"cfg": g.cfg, "events": g.events}, g.intents, 1))
+    return out
+
+
+def mon_c13_reports(case, intents, obs):
+    out = []
+    for i, (it, o) in enumerate(zip(intents, obs)):
+        if "panic" in o or o.get("blocked"):
+            out.append(("agent-died", f"event {i}: {o.get('panic')}", i))
+            break
+        if it.get("op") != "report":
+            continue
+        rs = [m for c_, m in replies_of(o) if m.get("type") == P.SR_REQ]
+        if len(rs) != 1:
+            out.append(("report:not-exactly-one-request", f"event {i}: {len(rs)} Session Report Requests for a downlink data report of session {it['lseid']} "
+                        "(buffering FAR with NOTIFY, first report of the session's interval is per connection literal: no rate limiter here)", i))
+            continue
+        m = rs[0]
+        if m.get("seid") != it["want_seid"]:
+            out.append(("report:stale-control-plane-seid", f"event {i}: Session Report Request addressed with SEID {m.get('seid')}, the control plane's "
+                        f"current SEID for session {it['lseid']} is {it['want_seid']}", i))
+        if m.get("dldr_pdr") != it["want_pdr"]:
+            out.append(("report:wrong-pdr", f"event {i}: Downlink Data Report names PDR {m.get('dldr_pdr')}, expected {it['want_pdr']}", i))
+    return out
